@@ -162,6 +162,51 @@ func resolveAliasSets() []string {
 	return ts
 }
 
+// aliasPrinterSets: the printer that words PCORE_ILLEGAL_ARGUMENT_TYPE with the type of the argument (model: print_pred,
+// common_pred, asg). A => U[K[x, y]] for K = Hash / Tuple / Variant and every ordered pair x, y of a pool of member types
+// over A (under resolution when the error is worded), B, Integer, an undeclared name and Object[{}]; B is declared
+// after A (no resolved type yet) or before it (resolved: Array[Integer] or Optional[Integer]); and the same K[x, y] as the
+// resolved type of A, rejected as the parent of an Object type (the wording of PCORE_ILLEGAL_OBJECT_INHERITANCE).
+func aliasPrinterPool() []aexpr {
+	atoms := []aexpr{{"Integer", "XCore", true}, {"A", "(XName 0%nat)", true}, {"B", "(XName 1%nat)", true},
+		{"U", "(XName 9%nat)", true}, {"Object[{}]", "XObj0", false}}
+	pool := append([]aexpr{}, atoms...)
+	for _, x := range atoms[:3] {
+		pool = append(pool, aliasUnary(x, true)[3:6]...) // Optional, NotUndef, Type
+		pool = append(pool, aliasUnary(x, false)[0])     // Array
+	}
+	a, b, i := atoms[1], atoms[2], atoms[0]
+	opt := func(x aexpr) aexpr { return aliasUnary(x, true)[3] }
+	nun := func(x aexpr) aexpr { return aliasUnary(x, true)[4] }
+	arr := func(x aexpr) aexpr { return aliasUnary(x, false)[0] }
+	pool = append(pool, aliasBinary(a, i, 2), aliasBinary(i, b, 2), aliasBinary(a, b, 2), aliasBinary(a, a, 1), aliasBinary(i, a, 0),
+		aliasBinary(i, b, 1), opt(arr(a)), nun(opt(a)), nun(opt(i)), arr(opt(b)), opt(aliasBinary(i, a, 2)), nun(aliasBinary(b, i, 2)))
+	return pool
+}
+
+func aliasPrinterSets() []string {
+	var ts []string
+	pool := aliasPrinterPool()
+	bs := []aexpr{{"Integer", "XCore", true}, aliasUnary(aexpr{"Integer", "XCore", true}, false)[0], aliasUnary(aexpr{"Integer", "XCore", true}, true)[3]}
+	parentUser := aexpr{"Array[Object[{parent => A}]]", "(XCont1 KArray (XObj (XName 0%nat)))", true}
+	for k := 0; k < 3; k++ {
+		for _, x := range pool {
+			for _, y := range pool {
+				m := aliasBinary(x, y, k)
+				e := aexpr{"U[" + m.text + "]", "(XArgs 9%nat " + m.term + ")", true}
+				aliasRegister(&ts, []string{"A", "B"}, []int{0, 1}, []aexpr{e, bs[0]})
+				aliasRegister(&ts, []string{"B", "A"}, []int{1, 0}, []aexpr{bs[1+(k+len(x.text)+len(y.text))%2], e})
+				// the other site: A = K[x, y] is resolved (it refers to itself as a resolved alias, B has no resolved type
+				// yet) and then rejected as the parent of an Object type: illegalParent words K[x, y]
+				aliasRegister(&ts, []string{"A", "C", "B"}, []int{0, 2, 1}, []aexpr{m, parentUser, bs[0]})
+			}
+		}
+	}
+	return ts
+}
+
+var aliasPrinterTexts = aliasPrinterSets()
+
 var aliasCodes = map[string]int{"PCORE_UNRESOLVED_TYPE": 1, "PCORE_ILLEGAL_OBJECT_INHERITANCE": 2, "PCORE_NOT_PARAMETERIZED_TYPE": 3,
 	"PCORE_ILLEGAL_ARGUMENT_TYPE": 4}
 
